@@ -66,7 +66,9 @@ func wrapperSites(p *an.Prog, wrapper *ssa.Function, argIdx int) []closureSite {
 			out = append(out, cs)
 		})
 	}
-	sort.Slice(out, func(i, j int) bool { return an.FuncKey(out[i].Caller)+p.InstrPos(out[i].Site) < an.FuncKey(out[j].Caller)+p.InstrPos(out[j].Site) })
+	sort.Slice(out, func(i, j int) bool {
+		return an.FuncKey(out[i].Caller)+p.InstrPos(out[i].Site) < an.FuncKey(out[j].Caller)+p.InstrPos(out[j].Site)
+	})
 	return out
 }
 
@@ -475,4 +477,29 @@ func outerLoopHeader(h *ssa.BasicBlock) *ssa.BasicBlock {
 		}
 	}
 	return nil
+}
+
+// reachIn: root, its closures and the functions of the given packages reachable from it — the place to look for an
+// anchor that a maintainer may have moved into a helper or turned from a closure into a method.
+func reachIn(p *an.Prog, root *ssa.Function, pkgs ...string) []*ssa.Function {
+	if root == nil {
+		return nil
+	}
+	want := map[string]bool{}
+	for _, k := range pkgs {
+		want[k] = true
+	}
+	reached, _ := p.Reach([]*ssa.Function{root}, an.ReachOpts{Within: func(f *ssa.Function) bool {
+		pk := an.FuncPkg(f)
+		return pk != nil && want[pk.Path()]
+	}})
+	var out []*ssa.Function
+	for f := range reached {
+		pk := an.FuncPkg(f)
+		if f.Blocks != nil && pk != nil && want[pk.Path()] {
+			out = append(out, f)
+		}
+	}
+	sort.Slice(out, func(i, j int) bool { return sk(out[i]) < sk(out[j]) })
+	return out
 }
